@@ -24,11 +24,11 @@ _SEQ = ("seeded random registration sequences built through the public Dispatche
 _WORLD = ("seeded random histories on a real World: <= 12 operations (insert / remove / entry / get_mut / has_value, typed and by id, with mismatching "
           "type arguments) over 3 resource types x dynamic ids {0,1,7} with drop counters; borrow phases of <= 7 steps with live guards, clones, writes "
           "through exclusive guards, Option system data, presence queries under live guards")
-_META = ("seeded random histories on a real MetaTable<dyn Probe>: <= 15 operations (register with repeats / insert / remove) over 6 types of different size, "
+_META = ("seeded random histories on a real MetaTable<dyn Probe>: <= 15 operations (register with repeats / insert / remove) over 6 (a third of the histories: 12, <= 36 operations) types of different size, "
          "get / get_mut / iter / iter_mut checked after every step, also under live shared / exclusive guards and held items, address-changing CastFrom impls")
 BOUNDS = {
-    "C06": "a generated family of 99 system-data types (tuple arities 1..26 with every member kind at every position, nestings to depth 3, repeated resources, "
-           "user SetupHandler members, derived named / tuple / generic / nested structs) x seeded presence masks over 26 resource types",
+    "C06": "a generated family of 103 system-data types (tuple arities 1..26 with every member kind at every position, nestings to depth 3, repeated resources, "
+           "user SetupHandler members, members that cannot be satisfied together, derived named / tuple / generic / nested structs) x seeded presence masks over 26 resource types",
     "C08": _WORLD + "; every third case: " + _META,
     "C09": _WORLD,
     "C15": "seeded call sequences (<= 8 of dispatch / running / wait / wait_without_tl / world / world_mut) on a real AsyncDispatcher over plans of <= 5 registrations; "
